@@ -18,7 +18,7 @@ for c in TABLE['claims']:
         'engine': 'verus-contracts',
         'level_claimed': {'category': 'proof', 'text': c['text'], 'design_ref': c.get('design_ref', 'DESIGN.md section 7 ' + pid)},
         'level_note': c['note'],
-        'technique': c.get('technique', 'contract-based deductive verification (Verus) of functions extracted mechanically from /repo on every run'),
+        'technique': c.get('technique', 'contract-based deductive verification (Verus/Z3) of the real functions, extracted mechanically from /repo on every run; decided by every tagged obligation being discharged. Bounded native witness searches on the real crate run alongside as labelled stand-ins (they can only add a violation with a concrete input, never count as proof)'),
     })
 m = {
     'version': 1,
@@ -33,7 +33,7 @@ m = {
     'engines': [
         {'name': 'verus-contracts', 'path': '/verif/check',
          'serves_properties': [c['id'] for c in TABLE['claims']],
-         'kind_free_text': 'Verus 0.2026.09.13 on functions cut out of /repo/src each run (extractor vfw/extract.py, templates units/*.vu), Kani loop-free harnesses for integer kernels, native witness search for replay'},
+         'kind_free_text': 'Verus 0.2026.09.13 on functions cut out of /repo/src each run (extractor vfw/extract.py, templates units/*.vu); Kani loop-free harnesses for integer kernels; native witness crate (public API of the real crate) for replay, fallback and bounded supplements; mutation self-test in the thorough tier'},
     ],
     'checks': checks,
     'notes': TABLE.get('notes', ''),
